@@ -425,6 +425,12 @@ class _At:
     def __init__(self, frame: Frame):
         self.f = frame
 
+    def __setitem__(self, key, value):
+        label, col = key
+        if label not in self.f.index or col not in self.f.cols:
+            raise Unsupported("frame.at assignment that enlarges the frame")
+        self.f.cols[col][self.f.index.index(label)] = value
+
     def __getitem__(self, key):
         label, col = key
         if label not in self.f.index:
